@@ -96,6 +96,9 @@ impl Report {
         for (k, v) in &self.stats {
             let _ = write!(line, ",\"{}\":{}", esc(k), v);
         }
+        if crate::alloc::saturated() {
+            let _ = write!(line, ",\"alloc_table_saturated\":1");
+        }
         line.push('}');
         let _ = writeln!(o, "{}", line);
         let _ = writeln!(o, "{{\"k\":\"done\"}}");
